@@ -381,6 +381,9 @@ fn panic_class(msg: &str) -> &'static str {
         // `run_hooks` reached a hook that has no decision to release (with overflow checks on,
         // its remaining_decision_count underflows first)
         "panic:run_hooks-no-decision"
+    } else if msg.contains("step cap") {
+        // ticks / observations keep being scheduled although nothing new is left to release
+        "tick-released-nothing-new|step-cap"
     } else if msg.contains("Stream ended") {
         "panic:stream ended early"
     } else if msg == "test failed" {
@@ -510,6 +513,7 @@ pub fn c36_end_to_end() {
         }
     }
 
+    rep.extra("max_scheduler_steps_per_instance", json!(MAX_POLLS.load(std::sync::atomic::Ordering::Relaxed)));
     if replay.is_none() {
         rep.require(flows_seen == ALL_CASES.len(), "all corpus flows ran");
         rep.require(rep.counter("log_notes_unparsed") == 0, "every decision note of every log was understood by the parser");
